@@ -60,6 +60,22 @@ def run_check(prop, tier, seed):
         "info": info,
     }
     res = mod.run(ctx)
+    # minimised past failures always run as well
+    cdir = os.path.join(common.VERIF, "corpus", prop)
+    ncorpus = 0
+    if os.path.isdir(cdir):
+        for fn in sorted(os.listdir(cdir)):
+            if fn.endswith(".json"):
+                obj = json.load(open(os.path.join(cdir, fn)))
+                ncorpus += 1
+                try:
+                    still = mod.replay(obj)
+                except Exception as ex:  # a corpus entry that no longer executes is reported, not ignored
+                    still = True
+                    obj = dict(obj, what=f"corpus entry {fn} raised {type(ex).__name__}: {ex}")
+                if still:
+                    res.violation(dict(obj, signature=obj.get("signature", "corpus:" + fn), what="corpus " + fn + ": " + obj.get("what", "")))
+    res.extra["corpus_cases_replayed"] = ncorpus
 
     if res.model_vs_spec:
         # the executable model contradicts the executable spec although their agreement is a theorem:
